@@ -22,7 +22,10 @@ RULE = ('array case = front end (keypoints/descriptors/global_features/matches/d
         'subnormals, int extremes, random) x reader arguments (same as writer / other type / other column count); '
         'bytes case = arbitrary byte strings (conformant and malformed lengths) given to the readers; path case = '
         'image names (nested, dots, spaces, unicode; plus non-normalised and absolute ones), feature types and roots '
-        'given to get_*_fullpath, the tar front end and Matches.lexical_order. '
+        'given to get_*_fullpath, the tar front end and Matches.lexical_order; seq case = ONE array object written 2-4 times '
+        'through several front ends / stores / views (writeable or read-only), every file and the caller\'s array checked; '
+        'two case = two images of one feature type written in turn (names differing only by unicode normalisation form, '
+        'case, spacing, or unrelated), first read back, ids listed. Names include non-NFC unicode. '
         'Non-trivial = array cases with at least one element or a zero-row array read back with its column count, '
         'and path cases with a nested or non-ASCII name; distinct = distinct case content.')
 TRUSTED = ['numpy: ndarray.tofile / tobytes emit the elements in C order in the array\'s byte order; fromfile / frombuffer '
@@ -58,12 +61,22 @@ LAYOUTS = ['C', 'F', 'strided', 'reversed']
 GOOD_NAMES = ['img.jpg', 'mapping/cam_01/00001.jpg', 'query/query001.jpg', 'a b/c d.png', 'dir.with.dots/im.age.jpeg',
               'ünï/cødé/图像.jpg', 'deep/1/2/3/4/5/x.jpg', '.hidden/.x', 'a..b/c', 'x.kpt',
               'n.overlapping.jpg', '-dash/~tilde.png', 'UPPER/Mixed.JPG', '00001', 'cam/\U0001f4f7.png', 'sp  ace/ x .jpg',
-              'trailing.dot./x.', 'a/b.matches', "quo'te/q\"q.jpg", 'per%cent/#hash&amp;.jpg']
+              'trailing.dot./x.', 'a/b.matches', "quo'te/q\"q.jpg", 'per%cent/#hash&amp;.jpg',
+              # names that are NOT in unicode NFC form (decomposed accents as macOS tools emit, Hangul jamo,
+              # Angstrom / Ohm signs, CJK compatibility ideograph) and mixed forms: still plain, legal names
+              'cafe\u0301.jpg', 'mapping/cafe\u0301 01/vue d\u2019e\u0301te\u0301.jpg',
+              '\u1112\u1161\u11ab/\u1100\u1173\u11af.png', 'A\u030a/\u212b.jpg', '\u2126hm/\uf900.png',
+              'mixed e\u0301\u00e9.jpg']
+NON_NFC_TWINS = [('cafe\u0301.jpg', 'caf\u00e9.jpg'), ('mapping/cafe\u0301 01/e\u0301te\u0301.jpg', 'mapping/caf\u00e9 01/\u00e9t\u00e9.jpg'),
+                 ('\u1112\u1161\u11ab.png', '\ud55c.png'), ('A\u030a/x.jpg', '\u00c5/x.jpg'), ('\u212b.jpg', '\u00c5.jpg'),
+                 ('\u2126.png', '\u03a9.png'), ('dir/\uf900.png', 'dir/\u8c48.png'), ('\ufb01le.jpg', 'file.jpg'),
+                 ('IMG.JPG', 'img.jpg'), ('a b.jpg', 'a  b.jpg'), ('x.jpg', 'x.jpg '), ('a/b.jpg', 'a_b.jpg'),
+                 ('n.jpg', 'n.jpg.kpt'), ('same.jpg', 'same.jpg')]
 ODD_NAMES = ['a//b.jpg', './a.jpg', 'a/./b.jpg', 'a/../b.jpg', '../a.jpg', '/abs/a.jpg', 'a/', 'a\\b.jpg', '//a.jpg',
              '///a.jpg', '.', '..', 'a/..', '', 'a/b/../../c.jpg', '../../x', 'a\\..\\b', 'dir.overlapping/e.jpg']
-GOOD_TYPES = ['SIFT', 'r2d2_WASF-N8_20k', 'd2 net', 'ünï', 'AP-GeM-LM18', 'v1.2']
+GOOD_TYPES = ['SIFT', 'r2d2_WASF-N8_20k', 'd2 net', 'ünï', 'AP-GeM-LM18', 'v1.2', 'de\u0301tecteur', '\u212bkaze']
 ODD_TYPES = ['a/b', '', '.', 'x/../y', '/abs']
-GOOD_ROOTS = ['root', '/abs/root', 'some dir/käpture', 'a/b/c']
+GOOD_ROOTS = ['root', '/abs/root', 'some dir/käpture', 'a/b/c', 'donne\u0301es/k']
 ODD_ROOTS = ['', '.', 'r/', 'a/../b', '/', '//net/x', './r', 'r//s']
 
 
@@ -246,7 +259,7 @@ def gen_cases(rng, tier):
                     bits = rand_bits(rng, 'float32', h * wd)
                     cases.append(_arr('depth', 'file', 'float32', [h, wd], bits, big, rng.choice(LAYOUTS), None,
                                       rng.choice(['mapping/cam_01/00001.depth', 'query/q 1.depth', 'd.depth',
-                                                  'ü/深.depth'])))
+                                                  'ü/深.depth', 'cafe\u0301/e\u0301te\u0301.depth', '\u212b/\u1112\u1161\u11ab.depth'])))
         for dt in DTYPES:
             if dt == 'float32':
                 continue
@@ -269,6 +282,41 @@ def gen_cases(rng, tier):
         ln = max(ln, 0)
         cases.append({'k': 'bytes', 'api': api, 'store': store, 'hex': bytes(rng.getrandbits(8) for _ in range(ln)).hex(),
                       'rd_dtype': dt, 'rd_dsize': dsize, 'rd_size': rng.choice([[dsize, 1], [2, 3], [3, 2], [1, 1], [ln // 4 or 1, 1]])})
+    # 6b. the SAME array object written several times (same or other front end / store / image): every file must
+    #     be the dump, and the writer must leave its argument alone
+    for _ in range(90 * reps):
+        dt = rng.choice(DTYPES) if rng.random() < 0.7 else rng.choice(['float32', 'float64', 'uint16', 'int32'])
+        shape = [rng.choice([0, 1, 2, 3, rng.randint(2, NMAX)]), rng.randint(1, K)]
+        if rng.random() < 0.25:
+            dt, shape = 'float64', [shape[0], 3]
+        bits = rand_bits(rng, dt, shape[0] * shape[1])
+        apis = ['keypoints', 'descriptors', 'global_features', 'raw']
+        if dt == 'float64' and shape[1] == 3:
+            apis.append('matches')
+        if dt == 'float32' and shape[0] > 0:
+            apis.append('depth')
+        steps = []
+        for i in range(rng.choice([2, 2, 3, 3, 4])):
+            api = rng.choice(apis)
+            steps.append({'api': api, 'store': 'file' if api == 'depth' else rng.choice(['file', 'tar']),
+                          'name': rng.choice(GOOD_NAMES) if rng.random() < 0.7 else 'img.jpg',
+                          'name2': rng.choice(GOOD_NAMES), 'alias': rng.random() < 0.3})
+        cases.append({'k': 'seq', 'dtype': dt, 'shape': shape, 'bits': bits, 'big': rng.random() < 0.7,
+                      'layout': rng.choice(LAYOUTS), 'writeable': rng.random() < 0.8, 'ftype': rng.choice(GOOD_TYPES),
+                      'steps': steps})
+    # 6c. two images of one feature type, one after the other: names that differ only by unicode normalisation
+    #     form, case, spacing ... must get two files; the first is read back and the ids are listed
+    pairs = list(NON_NFC_TWINS) + [tuple(rng.sample(GOOD_NAMES, 2)) for _ in range(12 * reps)]
+    for (n1, n2) in pairs:
+        for store in ('file', 'tar'):
+            if rng.random() < 0.5:
+                n1, n2 = n2, n1
+            api = rng.choice(['keypoints', 'descriptors', 'global_features'])
+            d1, d2 = rng.choice(DTYPES), rng.choice(DTYPES)
+            s1, s2 = [rng.randint(1, 5), rng.randint(1, K)], [rng.randint(0, 4), rng.randint(1, K)]
+            cases.append({'k': 'two', 'api': api, 'store': store, 'ftype': rng.choice(GOOD_TYPES), 'n1': n1, 'n2': n2,
+                          'a1': {'dtype': d1, 'shape': s1, 'bits': rand_bits(rng, d1, s1[0] * s1[1])},
+                          'a2': {'dtype': d2, 'shape': s2, 'bits': rand_bits(rng, d2, s2[0] * s2[1])}})
     # 7. paths
     for kind in ('Keypoints', 'Descriptors', 'GlobalFeatures'):
         for name in GOOD_NAMES:
@@ -466,8 +514,12 @@ def _run_array(case, root):
             handler = TarHandler(tp, 'a')
         loc = _locate(case, root, handler)
         if case['k'] == 'array':
+            before = _snapshot(arr)
             try:
-                _write(case, loc, arr)
+                try:
+                    _write(case, loc, arr)
+                finally:
+                    obs['input_kept'] = (_snapshot(arr) == before)
                 obs['write'] = 'ok'
             except AssertionError:
                 obs['write'] = 'refused'
@@ -508,16 +560,136 @@ def _run_array(case, root):
         elif os.path.isfile(obs['loc']):
             with open(obs['loc'], 'rb') as f:
                 obs['hex'] = f.read().hex()
-    # read back through the matching reader
+    # read back through the matching reader, and list the image ids / pairs stored
     handler = None
     try:
         if tar:
             handler = TarHandler(_tar_path(case, root), 'r')
             loc = (loc[0], handler)
         obs['read'] = _read_obs(lambda: _read(case, loc))
+        obs['listing'] = _listing(case['api'], case['ftype'], root, handler)
     finally:
         if handler is not None:
             handler.close()
+    return obs
+
+
+def _snapshot(arr):
+    """what the caller holds: dtype (with byte order), shape, strides-independent content, writeable flag."""
+    import numpy as np
+    return (arr.dtype.str, tuple(arr.shape), np.ascontiguousarray(arr).tobytes(), bool(arr.flags.writeable))
+
+
+def _listing(api, ftype, root, handler):
+    """image ids (or pairs) the code lists for this feature type; None for front ends without listing."""
+    import kapture.io.features as kf
+    if api not in KIND:
+        return None
+    try:
+        if api == 'matches':
+            it = kf.matching_pairs_from_tar(handler) if handler is not None else kf.matching_pairs_from_dirpath(ftype, root)
+            return sorted([list(p) for p in it])
+        kt = _front(api)[0]
+        it = kf.image_ids_from_feature_tar(kt, handler) if handler is not None \
+            else kf.image_ids_from_feature_dirpath(kt, ftype, root)
+        return sorted(it)
+    except Exception as e:
+        return {'err': f'{type(e).__name__}: {e}'[:160]}
+
+
+def _doc_bytes(case, root):
+    """(found, bytes) at the documented location, read with the standard library."""
+    doc_path, doc_member = doc_location(case, root)
+    if case['store'] == 'tar':
+        data, _ = _tar_bytes(doc_path, doc_member)
+        return data is not None, data
+    if os.path.isfile(doc_path):
+        with open(doc_path, 'rb') as f:
+            return True, f.read()
+    return False, None
+
+
+def _run_seq(case, root):
+    from kapture.io.tar import TarHandler
+    arr = build_array(case)
+    if not case['writeable']:
+        arr.flags.writeable = False
+    before = _snapshot(arr)
+    obs = {'writes': [], 'kept': []}
+    for st in case['steps']:
+        c = dict(case, api=st['api'], store=st['store'], name=st['name'], name2=st['name2'])
+        o = {'write': None, 'found': False, 'hex': None}
+        handler = None
+        try:
+            if st['store'] == 'tar':
+                tp = _tar_path(c, root)
+                os.makedirs(os.path.dirname(tp), exist_ok=True)
+                handler = TarHandler(tp, 'a')
+            loc = _locate(c, root, handler)
+            given = arr[...] if st['alias'] else arr      # a view shares the caller's buffer
+            try:
+                _write(c, loc, given)
+                o['write'] = 'ok'
+            except AssertionError:
+                o['write'] = 'refused'
+            except IndexError:
+                o['write'] = 'indexerr'
+            except Exception as e:
+                o['write'] = f'other: {type(e).__name__}: {e}'[:200]
+        finally:
+            if handler is not None:
+                handler.close()
+        if o['write'] == 'ok':
+            found, data = _doc_bytes(c, root)
+            o['found'], o['hex'] = found, (None if data is None else data.hex())
+        obs['writes'].append(o)
+        obs['kept'].append(_snapshot(arr) == before)
+    obs['after_bits'] = _bits_of(arr)
+    obs['dtype_kept'] = (arr.dtype.str == before[0] and tuple(arr.shape) == before[1])
+    return obs
+
+
+def _run_two(case, root):
+    import numpy as np
+    from kapture.io.tar import TarHandler
+    api = case['api']
+    _, get, write, read = _front(api)
+    obs = {'writes': []}
+    handler = None
+    tp = _tar_path(dict(case, api=api), root)
+    try:
+        if case['store'] == 'tar':
+            os.makedirs(os.path.dirname(tp), exist_ok=True)
+            handler = TarHandler(tp, 'a')
+        for n, a in ((case['n1'], case['a1']), (case['n2'], case['a2'])):
+            arr = build_array(dict(a, big=False, layout='C'))
+            try:
+                write(get(case['ftype'], root, n, handler), arr)
+                obs['writes'].append('ok')
+            except Exception as e:
+                obs['writes'].append(f'other: {type(e).__name__}: {e}'[:160])
+    finally:
+        if handler is not None:
+            handler.close()
+    handler = None
+    try:
+        if case['store'] == 'tar':
+            handler = TarHandler(tp, 'r')
+        a1 = case['a1']
+        obs['read1'] = _read_obs(lambda: read(get(case['ftype'], root, case['n1'], handler),
+                                              getattr(np, a1['dtype']), a1['shape'][1]))
+        obs['listing'] = _listing(api, case['ftype'], root, handler)
+    finally:
+        if handler is not None:
+            handler.close()
+    d, ext = DOC[api]
+    base = os.path.join(root, d, case['ftype'])
+    if case['store'] == 'tar':
+        with tarfile.open(os.path.join(base, DOC_TAR[api]), 'r') as t:
+            names = set(t.getnames())
+        obs['at_doc'] = [(n + ext) in names for n in (case['n1'], case['n2'])]
+    else:
+        obs['at_doc'] = [os.path.isfile(os.path.join(base, n + ext)) for n in (case['n1'], case['n2'])]
     return obs
 
 
@@ -575,6 +747,10 @@ def run_impl(case, ctx):
             if isinstance(obs.get('loc'), str) and obs['loc'].startswith(root):
                 obs['loc'] = '<root>' + obs['loc'][len(root):]
             return obs
+        if case['k'] == 'seq':
+            return _run_seq(case, root)
+        if case['k'] == 'two':
+            return _run_two(case, root)
         return _run_path(case, root)
     finally:
         shutil.rmtree(root, ignore_errors=True)
@@ -601,8 +777,14 @@ def oracle(case, obs):
             return f'{case["api"]} writer failed on a supported array: {obs["write"]}'
         if case['api'] == 'matches' and not valid_matches:
             return None                 # written although not float64 x 3: nothing to demand
+        if obs.get('input_kept') is False:
+            return f'{case["api"]}/{case["store"]}: the writer modified the array it was given'
         if not obs['found']:
             return f'{case["api"]}/{case["store"]}: no file at the documented location for the image name(s)'
+        if case['api'] in KIND:
+            want_ids = [[case['name'], case['name2']]] if case['api'] == 'matches' else [case['name']]
+            if obs.get('listing') != want_ids:
+                return f'{case["api"]}/{case["store"]}: the ids listed from the store are not the image name(s) written'
         want = b''.join(b.to_bytes(w, 'little') for b in bits)
         got = bytes.fromhex(obs['hex'])
         if got != want:
@@ -626,6 +808,41 @@ def oracle(case, obs):
                 return f'{case["api"]}/{case["store"]}: shape read back {r["shape"]} differs from {shape}'
             if r['bits'] != bits:
                 return f'{case["api"]}/{case["store"]}: element bits read back differ from those written'
+        return None
+    if k == 'seq':
+        for i, (st, o, kept) in enumerate(zip(case['steps'], obs['writes'], obs['kept'])):
+            c = dict(case, api=st['api'], store=st['store'])
+            dt, bits = expected_elems(c)
+            w = ISZ[dt]
+            valid_matches = (case['dtype'] == 'float64' and not case['big'] and case['shape'][1] == 3)
+            tag = f'write #{i + 1} of the same array ({st["api"]}/{st["store"]})'
+            if o['write'] != 'ok':
+                if st['api'] == 'matches' and not valid_matches and o['write'] in ('refused', 'indexerr'):
+                    continue
+                return f'{tag}: writer failed: {o["write"]}'
+            if not kept:
+                return f'{tag}: the writer modified the array it was given'
+            if st['api'] == 'matches' and not valid_matches:
+                continue
+            if not o['found']:
+                return f'{tag}: no file at the documented location'
+            if bytes.fromhex(o['hex']) != b''.join(b.to_bytes(w, 'little') for b in bits):
+                return f'{tag}: file is not the row-major little-endian dump of the array'
+        if obs['after_bits'] != case['bits'] or not obs['dtype_kept']:
+            return 'the array given to the writers is not the same afterwards'
+        return None
+    if k == 'two':
+        if any(wr != 'ok' for wr in obs['writes']):
+            return f'{case["api"]}/{case["store"]}: writer failed: {obs["writes"]}'
+        if not all(obs['at_doc']):
+            return f'{case["api"]}/{case["store"]}: no file at the documented location for the image name'
+        if case['n1'] != case['n2']:
+            a1, r = case['a1'], obs['read1']
+            if 'err' in r or r['dtype'] != a1['dtype'] or r['shape'] != a1['shape'] or r['bits'] != a1['bits']:
+                return (f'{case["api"]}/{case["store"]}: the file of the first image was replaced when a second, '
+                        f'differently named image was written')
+        if obs['listing'] != sorted({case['n1'], case['n2']}):
+            return f'{case["api"]}/{case["store"]}: the ids listed from the store are not the image names written'
         return None
     if k == 'bytes':
         # a conformant file (whole rows) must read as the array it denotes
@@ -714,6 +931,25 @@ def encode(case, obs):
         ow = {'ok': 'WOk', 'refused': 'WRefused', 'indexerr': 'WIndexErr'}.get(obs['write'], 'WOther')
         ob = _cn_list(bytes.fromhex(obs['hex'])) if obs.get('hex') is not None else '[999%N]'
         return f'(CArray {_API[case["api"]]} {st} {m} {tbl} {rd} {ow} {ob} {_robs(obs.get("read"))})'
+    if k == 'seq':
+        m = ('{| m_dtype := %s; m_shape := %s; m_elems := %s; m_big := %s; m_layout := %s |}' % (
+            CQ_DT[case['dtype']], _cn_list(case['shape']), _cn_list(case['bits']), kv.cbool(case['big']),
+            _LAY[case['layout']]))
+        ws = []
+        for o in obs['writes']:
+            ow = {'ok': 'WOk', 'refused': 'WRefused', 'indexerr': 'WIndexErr'}.get(o['write'], 'WOther')
+            ob = _cn_list(bytes.fromhex(o['hex'])) if o.get('hex') is not None else ('[999%N]' if ow == 'WOk' else '[]')
+            ws.append(kv.cpair(ow, ob))
+        return (f'(CSeq {m} [] {kv.clist(_API[st["api"]] for st in case["steps"])} {kv.clist(ws)} '
+                f'{_cn_list(obs["after_bits"])} {kv.cbool(obs["dtype_kept"])})')
+    if k == 'two':
+        def mem(a):
+            return ('{| m_dtype := %s; m_shape := %s; m_elems := %s; m_big := false; m_layout := LContig |}' % (
+                CQ_DT[a['dtype']], _cn_list(a['shape']), _cn_list(a['bits'])))
+        ids = obs['listing'] if isinstance(obs['listing'], list) else ['<error>']
+        return (f'(CTwo {kv.cstr(KIND[case["api"]])} {"SFile" if case["store"] == "file" else "STar"} '
+                f'{kv.cstr(case["n1"])} {kv.cstr(case["n2"])} {mem(case["a1"])} {mem(case["a2"])} '
+                f'{_robs(obs.get("read1"))} {kv.clist(kv.cstr(x) for x in ids)})')
     if k == 'fpath':
         t = obs['tar']
         ot = 'None' if t is None else kv.copt(kv.cstr(t if isinstance(t, str) else '<error>'))
@@ -733,6 +969,10 @@ def nontrivial(case, obs):
         return obs['write'] == 'ok' and (len(case['bits']) > 0 or (obs.get('read') or {}).get('shape') == case['shape'])
     if case['k'] == 'bytes':
         return len(case['hex']) > 0
+    if case['k'] == 'seq':
+        return len(case['bits']) > 0
+    if case['k'] == 'two':
+        return case['n1'] != case['n2']
     name = case.get('name', case.get('a', ''))
     return '/' in name or any(ord(ch) > 127 for ch in name)
 
@@ -748,10 +988,21 @@ def classify(case, obs):
         return (f'array/{case["api"]}/{case["store"]}/{kind}{8 * ISZ[case["dtype"]]}/rows={rk}/dim={len(case["shape"])}/'
                 f'{"BE" if case["big"] else "LE"}/reader={rd}/write={str(obs["write"])[:8]}/'
                 f'read={"err:" + r["err"] if "err" in r else ("ok" if r else "-")}')
+    if k == 'seq':
+        return (f'seq/{len(case["steps"])}writes/{"BE" if case["big"] else "LE"}/'
+                f'{"writeable" if case["writeable"] else "readonly"}/stores={"+".join(sorted({s["store"] for s in case["steps"]}))}')
+    if k == 'two':
+        import unicodedata
+        twin = unicodedata.normalize('NFC', case['n1']) == unicodedata.normalize('NFC', case['n2'])
+        return (f'two/{case["api"]}/{case["store"]}/'
+                f'{"same" if case["n1"] == case["n2"] else ("nfc-twins" if twin else "distinct")}')
     if k == 'bytes':
         r = obs.get('read') or {}
         return f'bytes/{case["api"]}/{case["store"]}/read={"err:" + r["err"] if "err" in r else "ok"}'
     name = case.get('name', case.get('a', ''))
+    import unicodedata
+    if ok_nfc := (unicodedata.normalize('NFC', name + case.get('b', '')) != name + case.get('b', '')):
+        return f'{k}/{"normalised" if normalised(name) else "odd"}/non-NFC'
     ok = normalised(name) and (k != 'mpath' or normalised(case['b']))
     return f'{k}/{"normalised" if ok else "odd"}/{"unicode" if any(ord(c) > 127 for c in name) else "ascii"}'
 
@@ -769,6 +1020,35 @@ def describe(case, obs):
 
 
 def shrink(case):
+    if case['k'] == 'seq':
+        if len(case['steps']) > 2:
+            for i in range(len(case['steps'])):
+                yield dict(case, steps=case['steps'][:i] + case['steps'][i + 1:])
+        r, c = case['shape']
+        for (r2, c2) in ((1, c), (r, 1), (1, 1)):
+            if (r2, c2) != (r, c) and r2 <= r and c2 <= c and not any(s['api'] == 'matches' for s in case['steps']):
+                yield dict(case, shape=[r2, c2], bits=[case['bits'][i * c + j] for i in range(r2) for j in range(c2)])
+        for i, st in enumerate(case['steps']):
+            for key, val in (('store', 'file'), ('name', 'img.jpg'), ('alias', False)):
+                if st[key] != val and not (key == 'store' and st['api'] == 'depth'):
+                    steps = list(case['steps'])
+                    steps[i] = dict(st, **{key: val})
+                    yield dict(case, steps=steps)
+        if case['layout'] != 'C':
+            yield dict(case, layout='C')
+        if case['ftype'] != 'SIFT':
+            yield dict(case, ftype='SIFT')
+        return
+    if case['k'] == 'two':
+        for key in ('a1', 'a2'):
+            a = case[key]
+            if a['shape'] != [1, 1] and a['shape'][0] >= 1:
+                yield dict(case, **{key: dict(a, shape=[1, 1], bits=a['bits'][:1])})
+        if case['ftype'] != 'SIFT':
+            yield dict(case, ftype='SIFT')
+        if case['store'] != 'file':
+            yield dict(case, store='file')
+        return
     if case['k'] != 'array':
         return
     shape = case['shape']
